@@ -172,6 +172,8 @@ def run_unit(unit, tier):
             body = '\n'.join(lns)
             for (sname, labs_, text_, line_) in tmpl_pre:
                 if re.search(r'\b%s\s*(::<[^>]*>)?\s*\(' % re.escape(sname), body):
+                    # the obligation is identified by the call site's callee as well: `label@stand-in`
+                    labs_ = ['%s@%s' % (l, sname) for l in labs_]
                     labs_by_fn.setdefault(fnm, set()).update(labs_)
                     callee_clauses.append(dict(fn=fnm, kind='spec', labels=list(labs_), first=line_, last=line_,
                                                text='precondition of %s at its call site(s) in %s: %s' % (sname, fnm, text_)))
@@ -232,7 +234,14 @@ def run_unit(unit, tier):
                 if ln and 1 <= ln <= len(g['origin']) and g['origin'][ln - 1].get('kind') == 'tmpl':
                     found = LABEL.findall(gl[ln - 1])
                     if found:
-                        labels += found
+                        # name of the stand-in whose precondition this is (nearest `fn` above in the template text)
+                        sname = None
+                        for q in range(ln - 1, max(ln - 40, 0), -1):
+                            mm = re.search(r'\bfn\s+([A-Za-z_][A-Za-z0-9_]*)\s*[<(]', gl[q - 1]) if q >= 1 else None
+                            if mm:
+                                sname = mm.group(1)
+                                break
+                        labels += ['%s@%s' % (l, sname) if sname else l for l in found]
                         tmpl_clause = gl[ln - 1].strip()[:600]
                         f2 = None
                         for (ln2, _l, _p) in e['lines']:
